@@ -21,6 +21,7 @@ EXPLANATION = (
     "parents, otherwise the dataset sub-graph, both node-induced by an isinstance filter (no edge filter, so isolated nodes and all edges "
     "among kept nodes are exported); R18.4 the text summary reads the runner's sorted accessors, each `sorted(<set>, key=str)`. "
     "R18.5 the export is recomputed from this runner's own graph on every call: no memo, no class-level store (= R11.3). Does not decide: that the graph itself is right (C01-C06)."
+    ' R18.2 also requires, for the classes whose objects are exported nodes, that equal objects print the same (identity compares the printed name or exactly the plain fields it prints). R18.7 (= R03.1 / R03.2) the tags behind the summary describe the exported graph.'
 )
 RULE_TEXT = "one obligation per comprehension of the serialiser, per exported class (I3), per sub-graph view and per summary section"
 
@@ -216,7 +217,8 @@ def rules(ctx: Ctx) -> None:
     node_names = _holder_names([c for c, _, _ in node_comps])
     edge_names = _holder_names([c for c, _ in edge_comps])
     # the returned value is computed from the node lists and the edge list (whether or not they were given names first)
-    infl = {id(k) for k in prog.influences(ser, rets[0].value)} if len(rets) == 1 else set()
+    infl_of = [{id(k) for k in prog.influences(ser, r_.value)} for r_ in rets]
+    infl = set().union(*infl_of) if infl_of else set()
     def _pure_concat(e: ast.AST, depth: int = 0) -> bool:
         """the value is the node / edge lists themselves, concatenated - nothing is selected, merged or re-keyed on the way out"""
         if depth > 6:
@@ -230,7 +232,9 @@ def rules(ctx: Ctx) -> None:
             return bool(srcs_) and all(_pure_concat(v, depth + 1) for v in srcs_)
         return False
 
-    ok_ret = len(rets) == 1 and all(id(c) in infl for c, _, _ in node_comps) and all(id(c) in infl for c, _ in edge_comps) and _pure_concat(rets[0].value)
+    # (one return, or one per branch of the compound switch: each hands out node lists and an edge list, and every list built is handed out)
+    ok_ret = bool(rets) and all(id(c) in infl for c, _, _ in node_comps) and all(id(c) in infl for c, _ in edge_comps) and all(
+        _pure_concat(r_.value) and any(id(c) in i_ for c, _, _ in node_comps) and any(id(c) in i_ for c, _ in edge_comps) for r_, i_ in zip(rets, infl_of))
     ctx.ob("R18.1", "returns-nodes-and-edges", ok_ret, loc(ser.mod, rets[0]) if rets else ser.loc(), "the export is nodes + edges")
     # nodes list is only extended (never filtered / de-duplicated by dropping)
     for n in prog.walk_fn(ser):
@@ -347,3 +351,9 @@ def rules(ctx: Ctx) -> None:
 
     # ---- R18.5 the export is computed from this runner's graph on every call (= R11.3: accessors are pure, nothing memoised) ---------
     common.import_rules(ctx, "C11", {"R11.3": "R18.5", "R11.2": "R18.6"})  # R18.6: accessors evaluate first and hand out fresh values (= R11.2)
+
+    # ---- R18.7 (= R03.1 / R03.2): the tables the summary lists are computed from the exported graph's degrees plus three tags - the tags must
+    # describe that graph (a tag that outlives the self loop it stood for lists a table under roles the exported edges do not show)
+    from .common import import_rules as _imp18
+
+    _imp18(ctx, "C03", {"R03.1": "R18.7", "R03.2": "R18.7"})
